@@ -2,3 +2,4 @@ pub mod gdsgen;
 pub mod lefgen;
 pub mod rawgen;
 pub mod shapes;
+pub mod tetgen;
